@@ -46,6 +46,7 @@ Fifth round: C09.1 the start-up delete pass runs after the start-up cycle and it
 Sixth round: C09.4 the restart repair and the deletion of a server through the API (records dropped on every path, the servers event created after the deletions) are shared with C10.3; C09.5 the model instance is recognised through a .get lookup too.
 Seventh round: C09.4 the self check judges each recorded copy against the model as it was recorded (the map the repair reads is not rewritten in the same iteration), and instances are taken off a server outside a cycle only by the named loader routines.
 Eighth round: C09.3 a failed write or delete of a placement record escapes the publication routine (what one publication misses no later one repeats); C09.4 reload_server drops a server for good only when its record is gone or empty - every other removal is followed by load_server.
+Ninth round: C09.4 every recorded instance a reload does not put back has its record deleted in the same iteration (shared with C11.4).
 Does NOT decide equality of the whole stored tree with the whole model over
 histories of ZooKeeper events.
 """
